@@ -34,6 +34,28 @@
 
 #include "xml.h"
 
+#ifdef DANMAR_CPPCHECK_VERIF
+#include <csignal>
+#include <cstdlib>
+#include <unistd.h>
+// verification hook: with VERIF_CRASH_AT=k in the environment the process dies at the k-th cache write
+// (VERIF_CRASH_FLUSH: what was written so far reaches the disk first; VERIF_CRASH_GROUP: the whole process group dies)
+static void verifCrashPoint(std::ostream* os)
+{
+    static const char* const at = std::getenv("VERIF_CRASH_AT");
+    if (!at)
+        return;
+    static long count = 0;
+    if (++count != std::atol(at))
+        return;
+    if (os && std::getenv("VERIF_CRASH_FLUSH"))
+        os->flush();
+    if (std::getenv("VERIF_CRASH_GROUP"))
+        kill(0, SIGKILL);
+    _exit(137);
+}
+#endif
+
 AnalyzerInformation::~AnalyzerInformation()
 {
     close();
@@ -55,6 +77,9 @@ void AnalyzerInformation::writeFilesTxt(const std::string &buildDir, const std::
 {
     const std::string filesTxt(buildDir + "/files.txt");
     std::ofstream fout(filesTxt);
+#ifdef DANMAR_CPPCHECK_VERIF
+    verifCrashPoint(&fout);
+#endif
     fout << getFilesTxt(sourcefiles, fileSettings);
 }
 
@@ -80,8 +105,14 @@ std::string AnalyzerInformation::getFilesTxt(const std::list<std::string> &sourc
 void AnalyzerInformation::close()
 {
     if (mOutputStream.is_open()) {
+#ifdef DANMAR_CPPCHECK_VERIF
+        verifCrashPoint(&mOutputStream);
+#endif
         mOutputStream << "</analyzerinfo>\n";
         mOutputStream.close();
+#ifdef DANMAR_CPPCHECK_VERIF
+        verifCrashPoint(nullptr);
+#endif
     }
 }
 
@@ -195,6 +226,9 @@ bool AnalyzerInformation::analyzeFile(const std::string &buildDir, const std::st
         throw std::runtime_error("failed to open '" + analyzerInfoFile + "'");
     mOutputStream << "<?xml version=\"1.0\"?>\n";
     mOutputStream << "<analyzerinfo hash=\"" << hash << "\">\n";
+#ifdef DANMAR_CPPCHECK_VERIF
+    verifCrashPoint(&mOutputStream);
+#endif
 
     return true;
 }
@@ -203,12 +237,20 @@ void AnalyzerInformation::reportErr(const ErrorMessage &msg)
 {
     if (mOutputStream.is_open())
         mOutputStream << msg.toXML() << '\n';
+#ifdef DANMAR_CPPCHECK_VERIF
+    if (mOutputStream.is_open())
+        verifCrashPoint(&mOutputStream);
+#endif
 }
 
 void AnalyzerInformation::setFileInfo(const std::string &check, const std::string &fileInfo)
 {
     if (mOutputStream.is_open() && !fileInfo.empty())
         mOutputStream << "  <FileInfo check=\"" << check << "\">\n" << fileInfo << "  </FileInfo>\n";
+#ifdef DANMAR_CPPCHECK_VERIF
+    if (mOutputStream.is_open() && !fileInfo.empty())
+        verifCrashPoint(&mOutputStream);
+#endif
 }
 
 // TODO: report detailed errors?
